@@ -9,6 +9,37 @@ CHECKS = {
    technique='contract-based deductive verification (Verus): ensures clauses spliced onto Ns::insert / Ns::tmp extracted verbatim from /repo each run',
    text='Unbounded deductive proof: Ns::insert and Ns::tmp are copied verbatim out of crates/core/src/ns.rs on every run, their contracts (conflict reported iff defined; a fresh name was not previously defined and becomes defined, nothing else changes) are spliced in and Verus discharges every obligation for all name sets of any size. The induction over call sequences follows from the two contracts because every name handed out is inserted.',
    note='Trusted: Verus/z3; vstd HashSet specification; String<->Seq<char> bijection and String hash-key-model axioms; format!() replaced by an arbitrary string; counter overflow assumed away; termination of tmp not claimed. A failed Verus obligation carries no counterexample: a native bounded search on the real code is attempted for a replay, otherwise the VIOLATION line ends with no-failing-input-found.'),
+
+ 'C28': dict(
+   engine='verus', category='proof', design_ref='DESIGN.md §3 C28',
+   technique='contract-based deductive verification (Verus): wf/ensures/decreases and lemma calls spliced onto UnionFind::find / UnionFind::union extracted verbatim each run',
+   text='PARTIAL: the equivalence-class machinery only. Unbounded proof that find returns the class representative and changes no class (path compression), and that union merges exactly the two classes and nothing else, over an abstract root_of view with representation invariant parent[k] < k (which also gives termination of the recursive find).',
+   note='Not covered (stated in evidence): the structural-equality relation itself (is_structurally_equal/types_equal), type_id_info content flags and the two inline merge loops of collect_equal_types need a wit_parser::Resolve, out of reach of both verifiers. Trusted: vstd HashMap spec, Option::copied spec, TypeId := usize.'),
+ 'C17': dict(
+   engine='verus', category='proof', design_ref='DESIGN.md §3 C17',
+   technique='contract-based deductive verification (Verus): first-match specification spliced onto AsyncFilterSet::is_async / ensure_all_used extracted verbatim each run (loop invariants at the desugared for-enumerate loop)',
+   text='Unbounded proof, for directive lists of any length, that is_async answers with the first directive matching name and direction (else the WIT default), records exactly that directive as used and leaves the list unchanged; ensure_all_used errs iff some non-`all` directive never decided a function.',
+   note='Not covered: Async::parse/Display (str prefix matching) and that the generators act on the answer. Trusted: rule 5a loop desugaring, wit-parser shims, the qualified-name format! is uninterpreted. A native exhaustive small-scope search through the public API supplies replayable inputs when an obligation fails.'),
+ 'C18': dict(
+   engine='kani', category='proof', design_ref='DESIGN.md §2 C18',
+   technique='contract harnesses on the real WaitableOperation/CabiTask (Kani/CBMC, loop-free, symbolic host answers), inductive per operation over the abstract state space',
+   text='Each public operation of WaitableOperation (poll, re-poll, delivery, cancel, drop, cross-task move) is checked from every reachable abstract state against a ledger-keeping mock task with fully symbolic start/delivered/cancel codes and both task ABI versions: registered exactly once while pending, removed from every task before cancel/drop, completion processed exactly once, no registration survives the value.',
+   note='Trusted: mock host/task (what the ABI permits), abstract WaitableOp (concrete ops are C19-C21), Kani/CBMC, x86-64 vs wasm32. SharedTaskState::waitable_register/unregister are covered under C22.'),
+ 'C19': dict(
+   engine='kani', category='proof', design_ref='DESIGN.md §2 C19',
+   technique='contract harnesses on the real AbiBuffer / RawStreamWriter / RawStreamReader operations (Kani/CBMC), all ABI-permitted codes enumerated per buffer length',
+   text='Per-operation contracts: AbiBuffer lowers each value once in order, advance(k) releases exactly the k transferred items once, into_vec/drop recover exactly the untransferred suffix once; a stream write/read reports exactly the host count for every permitted code whether it arrives at once, through the task, or from cancel; done-flag behaviour after peer drop; handles dropped once.',
+   note='BOUNDED in buffer length (<=3 items / spare capacity <=2) — these obligations are listed as bounded, not proved; only take_handle is unbounded. write_all/collect loops and the futures::Stream adapter are not covered. Trusted: mock StreamOps, mock host.'),
+ 'C20': dict(
+   engine='kani', category='proof', design_ref='DESIGN.md §2 C20',
+   technique='contract harnesses on the real future write/read operations and typed wrappers (Kani/CBMC), complete enumeration of (operation, arrival, code)',
+   text='Op tables for RawFutureWriter/RawFutureWrite/RawFutureReader/RawFutureRead over the complete finite code set and every way an answer arrives (immediate, delivered, cancel, drop in flight): value lowered once, lifted back or released exactly once, outcome mapping one-to-one, no drop-writable while a write is pending. Typed FutureWriter/FutureWrite: default value handed to write_and_forget before any drop-writable in every drop/cancel path.',
+   note='write_and_forget itself (self-waking Arc cycle) is replaced by a recording stub in the quick tier. Trusted: mock FutureOps/vtable, mock host.'),
+ 'C21': dict(
+   engine='kani', category='proof', design_ref='DESIGN.md §2 C21',
+   technique='contract harnesses on the real Subtask::call future (Kani/CBMC), complete enumeration of the subtask status language',
+   text='All seven members of the status language (immediate RETURNED; STARTING/STARTED followed by events; drop at any non-terminal point with every permitted cancel answer) are run through the real SubtaskOps + WaitableOperation against a logging mock of the generated bindings: lists freed once iff started, owned params released iff cancelled before start, results lifted once from block+offset iff returned, handle dropped once, cancel only in flight and only after unregistering.',
+   note='Leak of the params/results block is not observable (double free / use-after-free are, via CBMC memory checks). Generated Subtask impls are mocked. Cleanup poison loop unwound for a 4-byte block with unwinding assertions.'),
 }
 
 NOT_APPLICABLE = {
@@ -36,7 +67,7 @@ NOT_APPLICABLE = {
 }
 # planned but not built yet: listed as not_applicable until their check exists
 PENDING = {k: 'check not built yet in this session (planned: DESIGN §7)' for k in
-           ['C04','C07','C14','C17','C18','C19','C20','C21','C22','C23','C24','C28']}
+           ['C04','C07','C14','C22','C23','C24']}
 
 def main():
     props = [json.loads(l) for l in open(os.path.join(HERE, 'properties.jsonl'))]
